@@ -39,6 +39,12 @@ Proof.
   exact (fun t p k => conj (coherent_new t) (conj (coherent_from_params p) (conj (coherent_set_kty k t)
           (conj (coherent_set_params k p) (coherent_to_public k))))).
 Qed.
+(* known finding K_params_mut: `*jwk.params_mut() = p` (whole-value assignment through the mutable accessor) is the one route that
+   can break the agreement; assigning a value of the declared family keeps it *)
+Theorem C18_params_mut_assign_refuted : exists k p, jwk_coherent k = true /\ jwk_coherent (jwk_params_mut_assign k p) = false.
+Proof. exact params_mut_assign_refuted. Qed.
+Theorem C18_params_mut_same_family : forall k p, j_kty k = params_kty p -> jwk_coherent (jwk_params_mut_assign k p) = true.
+Proof. exact params_mut_assign_same_family. Qed.
 Theorem C18_set_params_refused_iff_mismatch : forall k p, jwk_set_params k p = None <-> j_kty k <> params_kty p.
 Proof. exact set_params_refused_unchanged. Qed.
 Theorem C18_kty_coherent_deserialised : forall t ops m k, jwk_deser t ops m = Some k -> jwk_coherent k = true.
@@ -65,3 +71,5 @@ Print Assumptions C18_kty_coherent_deserialised.
 Print Assumptions C18_methods_public_only.
 Print Assumptions C18_pinned_to_public_refuted.
 Print Assumptions C18_pinned_deser_refuted.
+Print Assumptions C18_params_mut_assign_refuted.
+Print Assumptions C18_params_mut_same_family.
